@@ -549,3 +549,34 @@ def op_rank_run(st, recipe, rank):
             "collectives": comm.ncoll}
 
 # }}}
+
+
+def op_addr_probe(st):
+    """addresses of a few fresh objects (determinism self-test)"""
+    import pytato as pt
+    objs = [object(), [], {}, pt.make_placeholder("addr_probe", (2,), "float64")]
+    return [hex(id(o)) for o in objs]
+
+
+def op_dbg_single(st, recipe, what):
+    import loopy as lp
+    import pytato as pt
+    _vals, out = srecipe.build(recipe)
+    if not isinstance(out, pt.DictOfNamedArrays):
+        out = pt.make_dict_of_named_arrays({"_out": out})
+    try:
+        o = pt.transform.deduplicate(pt.tag_all_calls_to_be_inlined(out))
+        if what == "build":
+            return 0
+        bp = pt.generate_loopy(o)
+        if what == "loopy":
+            return 1
+        if what == "key":
+            from loopy.tools import LoopyKeyBuilder
+            LoopyKeyBuilder()(bp.program)
+            return 2
+        if what == "code":
+            lp.generate_code_v2(bp.program).device_code()
+            return 3
+    except Exception:  # noqa: BLE001
+        return -1
